@@ -14,7 +14,8 @@ Layout. `Restic/Proofs/C17_Loop.lean` (namespace `Restic.Props.C17`): theorems a
 transcription of `readNextChunk` / `saveFile` / `worker` for an *arbitrary* splitter under the laws
 L0 `InRange`, L1 `Streaming`, L2 `Bounded`, L3 `ResetsAfterCut`:
   `chunks_concat` (no law), `saveFile_total`, `chunks_eq_ref`, `chunks_buffer_indep`,
-  `worker_file_indep`, `chunks_specOK`, `edit_prefix_stable`, `edit_resync`, `edit_resyncOK`.
+  `worker_file_indep`, `pool_worker_indep` (any number of concurrent workers, any interleaving),
+  `chunks_specOK`, `edit_prefix_stable`, `edit_resync`, `edit_resyncOK`.
 `Restic/Proofs/C17_Rabin.lean`: the laws are *theorems* for the transcription of
 github.com/restic/chunker (`rabin_inRange`, `rabin_streaming`, `rabin_resets`, `rabin_bounded`).
 This file: the statements instantiated with the constants and call orders regenerated from the
@@ -45,6 +46,14 @@ theorem reset_before_loop :
 theorem worker_reuses_chunker :
     callIdx Gen.fileSaver_worker_calls "s.chunkerFactory.NewChunker" < callIdx Gen.fileSaver_worker_calls "s.saveFile" ∧
     callIdx Gen.fileSaver_worker_calls "s.saveFile" < Gen.fileSaver_worker_calls.length := by decide
+
+/-- every file worker gets its OWN library chunker: `chunkerFactory.NewChunker` creates one with
+    `chunker.NewBase` on every call, and `newFileSaver` starts the workers that call it (the
+    disjoint per-worker state of `runPool` / `pool_worker_indep`) -/
+theorem chunker_per_worker :
+    Gen.chunkerFactory_NewChunker_calls = ["chunker.NewBase"] ∧
+    Gen.newFileSaver_calls.contains "s.worker" = true ∧
+    callIdx Gen.fileSaver_worker_calls "s.chunkerFactory.NewChunker" = 0 := by decide
 
 /-- `baseChunker.Reset` re-initialises the library chunker (`c.bc.Reset(c.pol)`) -/
 theorem reset_calls_library : Gen.baseChunker_Reset_calls = ["c.bc.Reset"] := by decide
